@@ -280,10 +280,14 @@ class NamedModel(Cacheable):
     one header row (column labels) and no header column. The REAL ScopedNameRefCache computes the name scopes."""
     node_to_ref = _NumbersModel.node_to_ref
 
-    def __init__(self, names, labels):
+    def __init__(self, names, labels, rows=False):
         from numbers_parser.xrefs import ScopedNameRefCache
         self.names = names                    # table id -> table name
-        self._table_data = {t: [[HCell(labels[t][0]), HCell(labels[t][1])], [HCell("1"), HCell("2")]] for t in (7, 8, 9)}
+        self.rows = rows                      # True: the labels are row labels (one header column, no header row)
+        if rows:
+            self._table_data = {t: [[HCell(labels[t][0]), HCell("1")], [HCell(labels[t][1]), HCell("2")]] for t in (7, 8, 9)}
+        else:
+            self._table_data = {t: [[HCell(labels[t][0]), HCell(labels[t][1])], [HCell("1"), HCell("2")]] for t in (7, 8, 9)}
         self.name_ref_cache = ScopedNameRefCache(self)
 
     def sheet_ids(self):
@@ -310,10 +314,10 @@ class NamedModel(Cacheable):
         return uuid
 
     def num_header_rows(self, table_id):
-        return 1
+        return 0 if self.rows else 1
 
     def num_header_cols(self, table_id):
-        return 0
+        return 1 if self.rows else 0
 
     def number_of_rows(self, table_id):
         return 2
@@ -322,20 +326,43 @@ class NamedModel(Cacheable):
         return 2
 
 
-def h09c_named(l70, l71, l80, l81, l90, l91, n8, n9, target, tcol, absolute):
+def h09c_named(l70, l71, l80, l81, l90, l91, n8, n9, target, tcol, absolute, rows):
     """a whole-column reference into another table is printed by header label when the label is unique in its table, and
     qualified with just enough of table / sheet name that - read against the document's own labels and names, narrower
     scopes shadowing wider ones - exactly one column matches: the stored one"""
     labels = {7: [l70, l71], 8: [l80, l81], 9: [l90, l91]}
     names = {7: "H", 8: "T" + n8, 9: "T" + n9}
     sheet_of = {7: 0, 8: 0, 9: 1}
-    m = NamedModel(names, labels)
-    node = Node(AST_column=Node(column=tcol, absolute=absolute), NOFIELD_AST_row=Node(row=0, absolute=False),
-                AST_cross_table_reference_extra_info=Node(table_id=target))
-    # host cell (1, 0) of table 7; relative column offsets are from column 0
-    text = str(m.node_to_ref(7, 1, 0, node))
+    m = NamedModel(names, labels, rows)
+    if rows:
+        node = Node(AST_row=Node(row=tcol, absolute=absolute), NOFIELD_AST_column=Node(column=0, absolute=False),
+                    AST_cross_table_reference_extra_info=Node(table_id=target))
+        text = str(m.node_to_ref(7, 0, 1, node))          # host cell (0, 1): relative row offsets are from row 0
+    else:
+        node = Node(AST_column=Node(column=tcol, absolute=absolute), NOFIELD_AST_row=Node(row=0, absolute=False),
+                    AST_cross_table_reference_extra_info=Node(table_id=target))
+        text = str(m.node_to_ref(7, 1, 0, node))          # host cell (1, 0): relative column offsets are from column 0
     parts = text.split("::")
     last = parts[-1]
+    if rows and ":" in last:
+        # numeric row reference 'n:n' (the label is not usable): both halves name the same row
+        halves = last.split(":")
+        assert len(halves) == 2 and halves[0] == halves[1]
+        last = halves[0]
+        if absolute:
+            assert last[0] == "$"
+            last = last[1:]
+        assert last in ("1", "2")
+        assert len(parts) >= 2 or target == 7
+        tables = None
+        if len(parts) == 2:
+            here = [t for t in (7, 8, 9) if sheet_of[t] == 0 and names[t] == parts[0]]
+            tables = here if here else [t for t in (7, 8, 9) if names[t] == parts[0]]
+        elif len(parts) == 3:
+            tables = [t for t in (7, 8, 9) if "S%d" % sheet_of[t] == parts[0] and names[t] == parts[1]]
+        assert tables is not None
+        assert [(t, int(last) - 1) for t in tables] == [(target, tcol)]
+        return
     if absolute:
         assert last[0] == "$"
         last = last[1:]
@@ -402,13 +429,13 @@ HARNESSES = [
     Harness("H09c", h09c_named,
             dict(l70=StrDom(1, LABELS), l71=StrDom(1, LABELS), l80=StrDom(1, LABELS), l81=StrDom(1, LABELS), l90=StrDom(1, LABELS),
                  l91=StrDom(1, LABELS), n8=StrDom(1, [(120, 121)]), n9=StrDom(1, [(120, 121)]), target=Cases([8, 9]), tcol=Cases([0, 1]),
-                 absolute=BoolDom()),
-            bounds="3 tables (host + one on the same sheet + one on another sheet) with 2 labelled columns each; the six labels are "
+                 absolute=BoolDom(), rows=Cases([False, True])),
+            bounds="3 tables (host + one on the same sheet + one on another sheet) with 2 labelled columns (or 2 labelled rows) each; the six labels are "
                    "symbolic characters a..h (every equality pattern: unique, duplicated within a table, a sheet, the document), the two "
                    "target tables' names equal or not; target column and absolute flag symbolic",
             stubs=["model stub: table data = header cells with a formatted_value; the real ScopedNameRefCache / CellRange compute scopes "
                    "and text; NumbersUUID(...).hex identity"],
-            outside=["row labels, labels containing operator characters or quotes, labels that look like A1 references"],
+            outside=["labels containing operator characters or quotes, labels that look like A1 references"],
             patches=[(modelmod, "NumbersUUID", NumbersUUIDStub)]),
     Harness("H09b", h09b_qualify,
             dict(n_host=StrDom(1, ALNUM), n_same=StrDom(1, ALNUM), n_other=StrDom(1, ALNUM), n_third=StrDom(1, ALNUM), n_fourth=StrDom(1, ALNUM), target=Cases([8, 9, 10, 11]), s2=StrDom(1, ALNUM), s3=StrDom(1, ALNUM)),
